@@ -96,35 +96,45 @@ def run_driver(exe, args, trace):
     return s
 
 
-def corruption_control(ck, trace, module, cfg, pick, flip, wd):
-    """Binding control: one logged field of an accepted history is altered; the trace specification must
-    reject the altered history at that event (guards against a specification that accepts anything)."""
+def corruption_control(ck, trace, module, cfg, controls, wd):
+    """Binding control, independent of the seed's luck: for each (label, pick, flip) the FIRST event of the trace
+    that satisfies pick - chosen so that the altered field is one the specification asserts - is altered and the
+    history up to it re-validated; the trace specification must reject it.  An accepted alteration means the
+    specification does not constrain that field: machinery error."""
     lines = open(trace).read().splitlines()
-    start = 0
-    for i, ln in enumerate(lines):
-        if ln.startswith('{"e":"Reset"'):
-            start = i
-            continue
-        ev = json.loads(ln)
-        if pick(ev):
+    report = {}
+    for label, pick, flip in controls:
+        start = 0
+        report[label] = "no suitable event"
+        for i, ln in enumerate(lines):
+            if ln.startswith('{"e":"Reset"'):
+                start = i
+                continue
+            ev = json.loads(ln)
+            if not pick(ev):
+                continue
             flip(ev)
             p = os.path.join(wd, "corrupted.ndjson")
             with open(p, "w") as f:
                 f.write("\n".join(lines[start:i] + [json.dumps(ev, separators=(",", ":"))]) + "\n")
             n_ev, rej, st = vc.validate_trace(SPEC, module, cfg, p, parallel=1)
             os.remove(p)
-            ck.extra["corruption_control"] = "altered %s event rejected: %s" % (ev["e"], bool(rej))
+            report[label] = "altered %s event rejected: %s" % (ev["e"], bool(rej))
             if not rej:
-                raise vc.MachineryError("corruption control: an altered %s event was accepted by %s" % (ev["e"], module))
-            return
-    ck.extra["corruption_control"] = "no suitable event"
+                raise vc.MachineryError("corruption control (%s): an altered %s event was accepted by %s" % (label, ev["e"], module))
+            break
+    ck.extra["corruption_control"] = report
+
+
+# routines whose output object is fully determined by the definition (ResultIsDefinition asserts every entry)
+_ASSERTED_OUTPUT = ("Mul", "Transpose", "DSum", "Had", "Kron", "MulDiag", "HadVec")
 
 
 def _pick_matrix_result(ev):
-    if ev.get("r") != "ok" or not ev.get("out") or ev.get("e") in ("Add", "AddScaled", "Scale"):
+    if ev.get("e") not in _ASSERTED_OUTPUT or ev.get("r") != "ok":
         return False
     o = ev["out"][0]
-    return any(w[0] == o and w[1]["r"] >= 1 for w in ev["w"])
+    return any(w[0] == o and w[1]["r"] >= 1 and w[1]["c"] >= 1 for w in ev["w"])
 
 
 def _flip_matrix_result(ev):
@@ -132,6 +142,18 @@ def _flip_matrix_result(ev):
     for w in ev["w"]:
         if w[0] == o:
             w[1]["e"][-1][-1] += 1
+
+
+def _pick_refused(ev):
+    return ev.get("e") in ("Mul", "Had", "MulDiag") and ev.get("r") == "raise:DimensionException"
+
+
+def _flip_refused(ev):
+    ev["r"] = "ok"          # a non-conformable call reported as accepted
+
+
+MATRIX_CONTROLS = [("result entry + 1", _pick_matrix_result, _flip_matrix_result),
+                   ("refusal reported as ok", _pick_refused, _flip_refused)]
 
 
 def _validate(ck, trace, module="MatrixOpsTrace", cfg=None):
@@ -200,7 +222,7 @@ def run(tier, seed):
             continue
         _validate(ck, tr)
         if name == "random":
-            corruption_control(ck, tr, "MatrixOpsTrace", TRACE_CFG, _pick_matrix_result, _flip_matrix_result, wd)
+            corruption_control(ck, tr, "MatrixOpsTrace", TRACE_CFG, MATRIX_CONTROLS, wd)
             ck.samples += vc.sample_scenarios(tr, 3, maxlines=6)
             combos = s.get("class_combos", {})
             ck.extra["calls_per_routine"] = s.get("calls", {})
